@@ -277,7 +277,9 @@ def impl_one_inner(case):
             before = dict_snapshot(dd)
             iss = dd.check_for_definitions(hs)
             r["defs"].append({"n": len(iss), "codes": sorted(set(i["code"] for i in iss)),
-                              "unchanged": before == dict_snapshot(dd)})
+                              "unchanged": before == dict_snapshot(dd),
+                              "added": [row[0] for row in dict_snapshot(dd)[len(before):]],
+                              "prefix_kept": dict_snapshot(dd)[:len(before)] == before})
         r["dict"] = dict_snapshot(dd)
         hs = HedString(case["ann"], S, dd)
         r["forest"] = node_sx(hs.children)
@@ -436,6 +438,11 @@ def gen_def(rng, name, kind="valid"):
         d["takes"], takes = False, False
         d["content"] = content = gen_content(rng, 1, 2) + [rng.choice(PHS), rng.choice(PHS)]
         top = [["Definition/" + name, content]]
+    elif kind == "ph_non_tv_no_takes":   # one '#' on a non-value-taking tag, plain name: code rejects; statement silent
+        d["takes"] = False
+        content = gen_content(rng, 1) + [rng.choice(["Red/#", "Square/#"])]
+        top = [["Definition/" + name, content]]
+        d["valid"] = None
     elif kind == "unique_tag":           # code rejects (BAD_PROP_IN_DEFINITION); statement silent
         d["takes"] = False
         content = gen_content(rng, 1) + ["Event-context"]
@@ -510,6 +517,8 @@ def gen_defs(rng, malformed):
             kind = "two_ph_no_takes"
         elif x < 0.09:
             kind = "unique_tag"
+        elif x < 0.11:
+            kind = "ph_non_tv_no_takes"
         defs.append(gen_def(rng, nm, kind))
     # duplicates (same name up to case) are reported and ignored
     if rng.random() < (0.5 if malformed else 0.12):
@@ -527,6 +536,27 @@ def gen_defs(rng, malformed):
         elif d["valid"] is None:
             d["shadow"] = key        # the code rejects it; a later same-name definition is then not a duplicate
     return defs, good
+
+
+def pack_defs(rng, defs):
+    """Distribute the definitions over strings: one per string, or 2-4 consecutive ones in ONE string (the verdict
+    of a definition must not depend on what precedes it in the same string, duplicate names apart)."""
+    x = rng.random()
+    if x < 0.35 or len(defs) == 1:
+        sizes = [1] * len(defs)
+    elif x < 0.65:
+        sizes = [len(defs)]
+    else:
+        sizes, left = [], len(defs)
+        while left:
+            k = rng.randint(1, min(4, left))
+            sizes.append(k)
+            left -= k
+    texts, pos = [], 0
+    for k in sizes:
+        texts.append(",".join(d["text"] for d in defs[pos:pos + k]))
+        pos += k
+    return texts, sizes
 
 
 def def_ref(rng, good, wrong=0.12):
@@ -648,7 +678,8 @@ def gen_case(rng, malformed=False):
     with_de = rng.random() < 0.3
     ann, info = gen_ann(rng, good, depth=rng.randint(0, 3), with_de=with_de, malformed=malformed)
     sp = rng.choice([",", ",", ", ", " , "])
-    return {"defs": [d["text"] for d in defs], "meta": defs, "good": good, "ann": ftxt(ann).replace(",", sp),
+    texts, sizes = pack_defs(rng, defs)
+    return {"defs": texts, "pack": sizes, "meta": defs, "good": good, "ann": ftxt(ann).replace(",", sp),
             "ann_struct": ann, "de_info": info, "ops": gen_ops(rng), "kind": "malformed" if malformed else "valid"}
 
 
@@ -659,7 +690,8 @@ def de_case(rng, variant):
         if good:
             break
     g, info = written_defexpand(rng, good, variant)
-    return {"defs": [d["text"] for d in defs], "meta": defs, "good": good, "ann": txt(g), "ann_struct": [g],
+    texts, sizes = pack_defs(rng, defs)
+    return {"defs": texts, "pack": sizes, "meta": defs, "good": good, "ann": txt(g), "ann_struct": [g],
             "de_info": [info], "ops": rng.choice(["V", "", "VS", "S", "ES", "SE", "EV", "E", "VEV", "ECV", "EVCOV"]), "kind": "defexpand", "single_de": info}
 
 
@@ -667,21 +699,23 @@ def fixed_case(defs, ann, ops, kind="corpus"):
     """Corpus case: all definitions valid as written; verdicts derived like for generated ones."""
     meta = []
     good = {}
+    sizes = []
     for d in defs:
-        st = parse_struct(d)
-        grp = st[0]
-        dtag = [c for c in grp if isinstance(c, str)][0]
-        content = ([c for c in grp if isinstance(c, list)] or [None])[0]
-        name = dtag.split("/")[1]
-        m = {"name": name, "takes": dtag.endswith("/#"), "content": content, "valid": True, "need_issue": False,
-             "kind": "valid", "text": d}
-        if name.lower() in good:
-            m["valid"], m["need_issue"], m["kind"] = False, True, "duplicate"
-        else:
-            good[name.lower()] = m
-        meta.append(m)
-    return {"defs": defs, "meta": meta, "good": good, "ann": ann, "ann_struct": parse_struct(ann), "de_info": [],
-            "ops": ops, "kind": kind}
+        groups = [g for g in parse_struct(d) if isinstance(g, list)]
+        sizes.append(len(groups))
+        for grp in groups:
+            dtag = [c for c in grp if isinstance(c, str)][0]
+            content = ([c for c in grp if isinstance(c, list)] or [None])[0]
+            name = dtag.split("/")[1]
+            m = {"name": name, "takes": dtag.endswith("/#"), "content": content, "valid": True, "need_issue": False,
+                 "kind": "valid", "text": txt(grp)}
+            if name.lower() in good:
+                m["valid"], m["need_issue"], m["kind"] = False, True, "duplicate"
+            else:
+                good[name.lower()] = m
+            meta.append(m)
+    return {"defs": defs, "pack": sizes, "meta": meta, "good": good, "ann": ann, "ann_struct": parse_struct(ann),
+            "de_info": [], "ops": ops, "kind": kind}
 
 
 def corpus():
@@ -695,6 +729,10 @@ def corpus():
         fixed_case(d2, "Def/MyDef,(Def/Pq/3,Green)", "CESCES"),
         fixed_case(d2, "(Def-expand/MyDef,Def-expand/B,(Blue,Red))", "S", "two-de-tags"),
         fixed_case(d2 + ["(Definition/mydef,(Green))"], "Def/MyDef", "ES"),
+        fixed_case(["(Definition/Pq/#,(Label/#,(Distance/3 m,Green))),(Definition/MyDef,(Red,Blue)),(Definition/B)"],
+                   "Def/MyDef,(Def/Pq/3,Green),Def/B", "ES", "several-definitions-in-one-string"),
+        fixed_case(["(Definition/B),(Definition/Pq/#,(Label/#)),(Definition/MyDef,(Red,Blue)),(Definition/pq,(Red))"],
+                   "Def/MyDef,(Def/Pq/3,Green),Def/B", "E", "several-definitions-in-one-string"),
         fixed_case(d2, "Def/MyDef,(Def/Pq/3,Green)", "ESCE", "copy-interleaving"),
         fixed_case(d2, "Def/MyDef,(Def/Pq/3,Green)", "ECSEOS", "copy-interleaving"),
         fixed_case(d2, "Def/MyDef,(Def/Pq/3,Green)", "ECSEOSEV", "copy-interleaving"),
@@ -718,7 +756,7 @@ def corpus():
 
 def strip_case(case):
     """JSON-able payload with everything the oracle needs (replayable)."""
-    return {k: case[k] for k in ("defs", "ann", "ops", "kind", "meta", "good", "de_info", "single_de", "ann_struct")
+    return {k: case[k] for k in ("defs", "pack", "ann", "ops", "kind", "meta", "good", "de_info", "single_de", "ann_struct")
             if k in case}
 
 
@@ -733,18 +771,32 @@ def oracle(case, r, res):
         res.report("never-raises", cc, r["exn"])
         return
     good = case["good"]
-    # ---- acceptance
-    for m, o in zip(case["meta"], r["defs"]):
-        if m["valid"] is None:
-            continue
-        if m["valid"]:
-            if o["n"] != 0:
-                res.report("definition-accepted", cc, f"valid definition {m['text']!r} reported {o['codes']}")
-        else:
-            if m["need_issue"] and (o["n"] == 0 or o["codes"] != ["DEFINITION_INVALID"]):
-                res.report("definition-rejected", cc, f"{m['kind']}: {m['text']!r} issues={o['n']} {o['codes']}")
-            if not o["unchanged"]:
-                res.report("definition-not-stored", cc, f"{m['kind']}: {m['text']!r} changed the dictionary")
+    # ---- acceptance: every definition gets the verdict it would get alone, wherever it stands in its string
+    pos = 0
+    for size, text, o in zip(case.get("pack") or [1] * len(case["defs"]), case["defs"], r["defs"]):
+        ms = case["meta"][pos:pos + size]
+        pos += size
+        if not o.get("prefix_kept", True):
+            res.report("definition-not-stored", cc, f"{text!r} changed entries stored earlier")
+        for m in ms:
+            key = m["name"].lower()
+            if m["valid"] is True and key not in o["added"]:
+                res.report("definition-accepted", cc, f"valid definition {m['text']!r} not stored by {text!r} "
+                                                      f"(issues={o['n']} {o['codes']})")
+            if m["valid"] is False and m["kind"] != "duplicate" and key in o["added"] \
+                    and not any(x is not m and x["valid"] and x["name"].lower() == key for x in ms):
+                res.report("definition-not-stored", cc, f"{m['kind']}: {m['text']!r} in {text!r} was stored")
+        if all(m["valid"] is not None for m in ms):
+            want_added = [m["name"].lower() for m in ms if m["valid"]]
+            if o["added"] != want_added:
+                res.report("definition-not-stored" if len(o["added"]) > len(want_added) else "definition-accepted",
+                           cc, f"{text!r} stored {o['added']}, expected {want_added}")
+            need = sum(1 for m in ms if m["need_issue"])
+            if need == 0 and o["n"] != 0:
+                res.report("definition-accepted", cc, f"valid definitions {text!r} reported {o['n']} {o['codes']}")
+            if o["n"] < need or (o["n"] and o["codes"] != ["DEFINITION_INVALID"]):
+                res.report("definition-rejected", cc,
+                           f"{[m['kind'] for m in ms]}: {text!r} issues={o['n']} {o['codes']}, at least {need} expected")
     shadowed = {m["shadow"] for m in case["meta"] if "shadow" in m}
     stored = {row[0]: row for row in r["dict"]}
     if not shadowed:
@@ -960,7 +1012,7 @@ def column_cases(rng, n):
             ann, _ = gen_ann(rng, good, depth=rng.randint(0, 2), with_de=False)
             rows.append(ftxt(ann) if rng.random() < 0.8 else ftxt([t for t in ann if isinstance(t, str)
                                                                      and not t.startswith("Def")] or ["Red"]))
-        out.append({"defs": [d["text"] for d in defs], "good": good, "rows": rows})
+        out.append({"defs": pack_defs(rng, defs)[0], "good": good, "rows": rows})
     return out
 
 
